@@ -99,8 +99,13 @@ def volume_model_cases(ctx, n):
     for c in range(n):
         shape = tuple(rng.randint(2, 3) for _ in range(3))
         hs = [[K.dy_pos(rng) for _ in range(m)] for m in shape]
+        # every third case at laboratory scale (centimetre cells, low frequency): there the
+        # coefficients are ~1e-10 and smaller, far below any absolute tolerance
+        small = (c % 3 == 2)
+        if small:
+            hs = [[h / 64.0 for h in row] for row in hs]
         grid = emg3d.TensorMesh(hs, (0, 0, 0))
-        casek = c % 4
+        casek = (c + c // 4) % 4
         # all four (mu_r, epsilon_r) combinations in turn; every second case at a frequency /
         # Laplace parameter where the displacement term s eps0 eps_r is comparable to sigma
         has_mu, has_eps = bool((c // 2) & 1), bool((c // 2) & 2)
@@ -108,8 +113,10 @@ def volume_model_cases(ctx, n):
             has_mu, has_eps = rng.random() < 0.5, rng.random() < 0.5
         lap = (c % 3 == 1) if c < 16 else rng.random() < 0.4
         freq = -K.dy_pos(rng) if lap else K.dy_pos(rng)
-        if c % 2 == 0:
+        if c % 2 == 0 and not small:
             freq *= 2.0**24 if not lap else 2.0**27
+        if small:
+            freq /= 256.0
 
         def prop():
             return np.array(K.rand_arr(rng, shape, False, pos=True), float)
@@ -382,13 +389,14 @@ def search_volume_model(rng):
     import emg3d
     import scipy.constants as sc
     npr = np.random.RandomState(rng.randint(0, 2**31 - 1))
-    for freq in (1.0, 2e7, -2.5, -1e8, 0.01):
+    for freq, scale in ((1.0, 1.0), (2e7, 1.0), (-2.5, 1.0), (-1e8, 1.0), (0.01, 1.0),
+                        (0.004, 1 / 64.0), (-0.01, 1 / 64.0)):
         for casek in range(4):
             for has_mu, has_eps in ((False, False), (True, False), (False, True), (True, True)):
                 shape = (2, 3, 2)
-                hs = [npr.uniform(0.5, 3.0, n) for n in shape]
+                hs = [npr.uniform(0.5, 3.0, n) * scale for n in shape]
                 grid = emg3d.TensorMesh(hs, (0, 0, 0))
-                kw = dict(property_x=npr.uniform(0.1, 5, shape))
+                kw = dict(property_x=npr.uniform(0.1, 5, shape), mapping='Conductivity')
                 if casek in (1, 3):
                     kw['property_y'] = npr.uniform(0.1, 5, shape)
                 if casek in (2, 3):
@@ -397,9 +405,19 @@ def search_volume_model(rng):
                     kw['mu_r'] = npr.uniform(0.5, 2, shape)
                 if has_eps:
                     kw['epsilon_r'] = npr.uniform(1, 80, shape)
+                kw0 = {k: (np.array(v, copy=True) if isinstance(v, np.ndarray) else v) for k, v in kw.items()}
                 model = emg3d.Model(grid, **kw)
+                # earlier uses of the same model (s- / frequency sweep) must not matter
+                for fpre in (-2.0**27, 2.0**23):
+                    emg3d.models.VolumeModel(model, emg3d.Field(grid, frequency=fpre))
                 sf = emg3d.Field(grid, frequency=freq)
                 vm = emg3d.models.VolumeModel(model, sf)
+                kw = kw0
+                for k in kw0:
+                    if isinstance(kw0[k], np.ndarray) and not np.array_equal(getattr(model, k), kw0[k]):
+                        return {'signature': 'building a VolumeModel changed the Model', 'which': k,
+                                'frequency': freq, 'aniso': casek, 'mu_r': has_mu, 'epsilon_r': has_eps,
+                                'history': 'VolumeModel at s=2^27 (Laplace), at f=2^23 Hz, then at the frequency given'}
                 s = complex(sf.sval)
                 vol = np.multiply.outer(np.multiply.outer(hs[0], hs[1]), hs[2])
                 eps = kw.get('epsilon_r', 0.0) if has_eps else 0.0
